@@ -20,6 +20,7 @@ INT32_MAX = 2 ** 31 - 1
 
 class DT(object):
     """numpy dtype, concrete"""
+    pv_value_key = True       # hashable by value: usable as a dict key
     _KIND = {'float16': 'float', 'float32': 'float', 'float64': 'float', 'float128': 'float',
              'complex64': 'complex', 'complex128': 'complex', 'complex256': 'complex',
              'int8': 'int', 'int16': 'int', 'int32': 'int', 'int64': 'int', 'uint8': 'int', 'uint16': 'int',
@@ -270,6 +271,9 @@ class PArr(object):
             return ip.Builtin('copy', lambda I, fr, a, k: self._copy(fr))
         if name == 'real':
             if b.dtype.kind == 'complex':
+                if isinstance(b.shape, tuple) and all(isinstance(x, int) for x in b.shape) and _prod(b.shape) == 0:
+                    # the real view of an array without entries: only its dtype is observable
+                    return new_temp(VConst(0.0), DT({'complex64': 'float32', 'complex128': 'float64', 'complex256': 'float128'}[b.dtype.name]), b.shape, self.order_tag)
                 raise Unsupported('.real view of complex pointwise array')
             return self
         if name == 'imag':
@@ -598,8 +602,10 @@ def result_dtype(op, ops):
         return max(cands, key=lambda d: DT._SIZE[d.name])
     if rk == 'complex' and arr_dts:
         m = max(arr_dts, key=lambda d: DT._SIZE[d.name])
-        if m.name == 'float32':
+        if m.name in ('float16', 'float32'):
             return DT('complex64')
+        if m.name == 'float128':
+            return DT('complex256')
     if rk == 'float' and arr_dts and all(d.kind == 'float' for d in arr_dts):
         return max(arr_dts, key=lambda d: DT._SIZE[d.name])
     return DT(_PROMO[rk])
@@ -725,6 +731,10 @@ class NpModule(object):
         for n in ('float16', 'float32', 'float64', 'float128', 'complex64', 'complex128', 'complex256', 'int8', 'int16', 'int32', 'int64',
                   'uint8', 'uint16', 'uint32', 'uint64', 'bool_', 'float_', 'int_', 'complex_'):
             t[n] = DTSpec(n)
+        t['sctypes'] = {'float': [DTSpec(n) for n in ('float16', 'float32', 'float64', 'float128')],
+                        'complex': [DTSpec(n) for n in ('complex64', 'complex128', 'complex256')],
+                        'int': [DTSpec(n) for n in ('int8', 'int16', 'int32', 'int64')],
+                        'uint': [DTSpec(n) for n in ('uint8', 'uint16', 'uint32', 'uint64')]}     # x86-64 Linux build of NumPy (trusted)
         t['pi'] = 3.141592653589793
         t['inf'] = t['infty'] = t['Inf'] = t['Infinity'] = float('inf')
         t['nan'] = float('nan')
